@@ -94,9 +94,29 @@ def run(ctx):
         seq = common.random_sequences(ctx.rng, 1, ctx.pick(30, 60), 3)[0]
         if ctx.rng.random() < 0.6:
             seq = "".join(ctx.rng.choice("STYKEG") if ctx.rng.random() < 0.5 else c for c in seq)
-        o = lc.SP(seq)
+        o0 = lc.SP(seq)
         N = len(seq)
-        ev = [{"kind": "construct", "obj": 1, "seq": list(seq), "post": {"objs": [objmodel.project(o)], "spGrps": 0}}]
+        # every third series goes through several handles on one object (a second SequenceParameters around the same backend
+        # sequence, a shallow copy): whichever handle a call is made through, it is the one object's state that is set and read
+        handles = [o0]
+        if i % 3 == 1:
+            import copy
+            h2 = common.call(lambda: lc.SP(SeqObj=o0.SeqObj))
+            h3 = common.call(copy.copy, o0)
+            handles += [h[1] for h in (h2, h3) if h[0] == "ok" and hasattr(h[1], "get_phosphosites")]
+
+        class _Routed:          # each call goes through one of the handles
+            def __getattr__(self, name):
+                return getattr(ctx.rng.choice(handles) if len(handles) > 1 else o0, name)
+        o = _Routed() if len(handles) > 1 else o0
+
+        def interleaved(tag):
+            # the derived values are asked for in the middle of the series as well (and again at its end)
+            if len(o0.get_phosphosites()) <= 3:
+                dv_ = derived_events(ctx, o, {"seq": seq, "sites": o0.get_phosphosites(), "handles": len(handles), "when": tag})
+                if dv_:
+                    trs.append({"tid": len(trs) + 1, "seq": list(seq), "ev": dv_, "history": "random series (%s, %d handle(s))" % (tag, len(handles))})
+        ev = [{"kind": "construct", "obj": 1, "seq": list(seq), "post": {"objs": [objmodel.project(o0)], "spGrps": 0}}]
         favourites = [ctx.rng.randint(1, N) for _ in range(3)] + [k + 1 for k, ch in enumerate(seq) if ch in "STY"][:4]
         for _ in range(ctx.rng.randint(3, 9)):
             r = ctx.rng.random()
@@ -132,14 +152,16 @@ def run(ctx):
                     out = common.call(o.set_phosphosites, list(arg))
                 if out[0] != "ok":
                     ctx.violation("set-phosphosites-raised", {"seq": seq, "arg": arg, "form": form}, actual=out)
-                ev.append({"kind": "set_phosphosites", "obj": 1, "arg": arg, "post": {"objs": [objmodel.project(o)], "spGrps": 0}})
+                ev.append({"kind": "set_phosphosites", "obj": 1, "arg": arg, "post": {"objs": [objmodel.project(o0)], "spGrps": 0}})
+                if ctx.rng.random() < 0.25:
+                    interleaved("after a set")
             elif r < 0.8:
                 common.call(o.clear_phosphosites)
-                ev.append({"kind": "clear_phosphosites", "obj": 1, "post": {"objs": [objmodel.project(o)], "spGrps": 0}})
+                ev.append({"kind": "clear_phosphosites", "obj": 1, "post": {"objs": [objmodel.project(o0)], "spGrps": 0}})
             else:
                 s = common.call(o.get_phosphosites)
                 ps = common.call(o.get_phosphosequence)
-                e = {"kind": "phospho", "obj": 1, "reply": "x", "fresh": "x", "post": {"objs": [objmodel.project(o)], "spGrps": 0}}
+                e = {"kind": "phospho", "obj": 1, "reply": "x", "fresh": "x", "post": {"objs": [objmodel.project(o0)], "spGrps": 0}}
                 if s[0] == "ok" and isinstance(s[1], list) and ps[0] == "ok" and isinstance(ps[1], str):
                     e["sites"] = [int(x) for x in s[1]]
                     e["pseq"] = list(ps[1])
@@ -151,6 +173,18 @@ def run(ctx):
             dv = derived_events(ctx, o, {"seq": seq, "sites": o.get_phosphosites()})
             if dv:
                 trs.append({"tid": len(trs) + 1, "seq": list(seq), "ev": dv, "history": "random series"})
+        # ... then cleared and another set of as many sites as before, each state asked for its derived values
+        sty = [k + 1 for k, ch in enumerate(seq) if ch in "STY"]
+        if len(sty) >= 2 and i % 2 == 0:
+            k_ = ctx.rng.randint(1, min(2, len(sty) - 1))
+            s1 = ctx.rng.sample(sty, k_)
+            s2 = ctx.rng.sample([x for x in sty if x not in s1], min(k_, len(sty) - k_))
+            for step_, sites_ in (("first set", s1), ("same number of other sites after a clear", s2)):
+                common.call(o.clear_phosphosites)
+                ev.append({"kind": "clear_phosphosites", "obj": 1, "post": {"objs": [objmodel.project(o0)], "spGrps": 0}})
+                common.call(o.set_phosphosites, list(sites_))
+                ev.append({"kind": "set_phosphosites", "obj": 1, "arg": list(sites_), "post": {"objs": [objmodel.project(o0)], "spGrps": 0}})
+                interleaved(step_)
         hist_trs.append({"tid": i + 1, "ev": ev})
     # beyond the bound: nine sites (512 phosphostates) against fresh objects of the substituted sequences
     seq9 = "".join(ctx.rng.choice("KEGQ") + ctx.rng.choice("STY") for _ in range(12))
